@@ -224,3 +224,31 @@ fn budget_report_default() -> (r: BudgetReport)
 fn anchor_set_with_capacity(n: usize) -> (r: HashSet<usize>)
     ensures r@ == Set::<usize>::empty(),
 { unimplemented!() }
+
+// ---- the parser as check_yaml_budget sees it: a source of events (with spans dropped) or scan errors ----
+#[verifier::external_body]
+pub struct ScanErr { _p: () }
+#[verifier::external_body]
+pub struct EventParser<'a> { _p: std::marker::PhantomData<&'a ()> }
+/// the events the parser produces for a text (uninterpreted: the parser is outside this effort)
+uninterp spec fn parsed_events<'a>(text: Seq<char>) -> Seq<Result<Event<'a>, ScanErr>>;
+impl<'a> EventParser<'a> {
+    uninterp spec fn pending(&self) -> Seq<Result<Event<'a>, ScanErr>>;
+    /// `Iterator::next` of the parser (the span of the item is dropped)
+    #[verifier::external_body]
+    fn next_item(&mut self) -> (r: Option<Result<Event<'a>, ScanErr>>)
+        ensures match r {
+            Some(it) => old(self).pending().len() > 0 && it == old(self).pending()[0] && final(self).pending() == old(self).pending().skip(1),
+            None => old(self).pending().len() == 0 && final(self).pending() == old(self).pending() },
+    { unimplemented!() }
+}
+/// `Parser::new_from_str(input)`
+#[verifier::external_body]
+fn event_parser_from_str<'a>(input: &'a str) -> (r: EventParser<'a>) ensures r.pending() == parsed_events::<'a>(input@), { unimplemented!() }
+
+/// the independent count after the first `k` events (all assumed Ok)
+spec fn count_of(evs: Seq<Result<Event<'_>, ScanErr>>, k: int, per: bool) -> Abs
+    decreases k,
+{
+    if k <= 0 { abs_fresh() } else { abs_step(count_of(evs, k - 1, per), evs[k - 1]->Ok_0, per) }
+}
